@@ -89,6 +89,12 @@ CHECKS = {
    text="TLC explores every graph of up to 2 (all operators) / 3 (XOR, AND, INV) gates over 2 inputs and the constant wires with every output marking and checks after each step of the passes that the circuit outputs still compute the original function, that attached constants are sound, that no output loses its driver and that gate order stays topological; the same graphs (plus simulated 4-gate graphs) are built with the real circuits.Compiler, optimised with pruning on and off for Yao and GMW, and compared on all inputs with the graph's truth table; generated programs are compiled under {prune} x {multiplier thresholds 0, 8, 16, 21, 64} x {Yao, GMW} and compared on every input (exhaustive up to 16 input bits) with the interpreter's prediction for the default configuration.",
    note="Trusts TLC, Circuit.Compute as evaluator and the harness' graph builder; Opt.tla puts output flags directly on gate wires whereas the code feeds outputs through identity gates.",
    ref="5 C09"),
+ "C12": dict(
+   technique="TLA+ specs Fold.tla (typed operator semantics of Mpcl.tla; TLC prints every operand pair of the narrow types with the expected value) and FoldCat.tla / FoldTrace.tla (TLC spans the wide case space and decides each recorded case on base-4096 limbs), bound to the compiler by compiling the constant and the run-time variant of every case",
+   level="model_checking",
+   text="For every case (operator incl. unary - and !, intN/uintN for 13 widths from 8 to 130 and every width <= 4, operand patterns on the 32/64/minimal storage sizes, consumer: returned, +1, /3, <2, <<1, reused with the operand) the harness compiles the expression on typed package constants (CompileSSA confirms nothing is left to compute) and on run-time parameters, evaluates both circuits, and FoldTrace.tla decides equality and - where BV.tla defines it - the typed reference value; narrow types are compared with the expected value Fold.tla derives from the interpreter semantics. Quick: seeded sample of 7000 of the 234450 cases plus 150 narrow (operator, type, consumer) tables; thorough: the whole space.",
+   note="Trusts TLC, Circuit.Compute as evaluator, the limb arithmetic (ASSUME SelfTest). The unchanged compiler folds differently from its circuits on 36789 inputs of the fixed case space (storage-size instead of declared-type semantics); they are listed one by one in known/C12.inputs.json and any other discrepancy is a violation.",
+   ref="5 C12"),
 }
 
 NOT_APPLICABLE = {}
